@@ -144,6 +144,8 @@ theorem runM_askM_bind {β} (W : World) (q : Query) (f : Answer q → M β) :
     runM W (askM q >>= f) = runM W (f (W q)) := by
   rw [runM_bind]; rfl
 
+@[simp] theorem runM_askM (W : World) (q : Query) : runM W (askM q) = .ok (W q) := rfl
+
 def hashM (a : HashAlg) (b : Bytes) : M Bytes := askM (.hash a b)
 def sha256M (b : Bytes) : M Bytes := hashM .sha256 b
 def jsonLoadsBytesM (b : Bytes) : M JsonOutcome := askM (.jsonLoadsBytes b)
@@ -159,6 +161,7 @@ def keyDescriptionM (der : Bytes) : M (Option KeyDescView) := askM (.keyDescript
 def nowSecondsM : M Int := askM .nowSeconds
 def tokenBytesM (k n : Nat) : M Bytes := askM (.tokenBytes k n)
 
+@[simp] theorem runM_hashM (W : World) (a b) : runM W (hashM a b) = .ok (W.hash a b) := rfl
 @[simp] theorem runM_hashM_bind {β} (W : World) (a b) (f : Bytes → M β) :
     runM W (hashM a b >>= f) = runM W (f (W.hash a b)) := runM_askM_bind W (.hash a b) f
 @[simp] theorem runM_sha256M_bind {β} (W : World) (b) (f : Bytes → M β) :
